@@ -9,7 +9,7 @@ import (
 func init() {
 	prop(&PropertySpec{
 		ID: "C06", Level: "other",
-		Rules: []string{"R06.1", "R06.2", "R06.3", "R06.4", "R06.5", "R03.2"},
+		Rules: []string{"R06.1", "R06.2", "R06.3", "R06.4", "R06.5", "R03.2", "R03.9"},
 		Explanation: "Decides the close-at-most-once typestate of subscriber channels and the hand-over protocol of Subscribe: " +
 			"R06.1 every close of a subscriber channel has membership evidence (range key of the subscribers map, a fresh never-inserted subscription, or a positive comma-ok lookup) and is paired with the delete of the same key; " +
 			"R06.2 every send on a subscriber channel is followed on every path by its close before the loop can block or go on; " +
